@@ -26,7 +26,11 @@ var _ Transport = (*DoHTransport)(nil)
 type DoHTransport struct {
 	rt     http.RoundTripper
 	logger *zerolog.Logger
-	closer io.Closer
+	closer io.Closer // Maybe nil.
+
+	// ctx is canceled when the transport is closed.
+	ctx    context.Context
+	cancel context.CancelCauseFunc
 
 	urlTemplate *urlpkg.URL
 	reqTemplate *http.Request
@@ -48,7 +52,10 @@ func NewDoHTransport(opts DoHTransportOpts) (*DoHTransport, error) {
 	req.Header["Accept"] = []string{"application/dns-message"}
 	req.Header["User-Agent"] = nil // Don't let go http send a default user agent header.
 
+	ctx, cancel := context.WithCancelCause(context.Background())
 	t := &DoHTransport{
+		ctx:         ctx,
+		cancel:      cancel,
 		rt:          opts.RoundTripper,
 		closer:      opts.Closer,
 		logger:      nonNilLogger(opts.Logger),
@@ -58,7 +65,10 @@ func NewDoHTransport(opts DoHTransportOpts) (*DoHTransport, error) {
 	return t, nil
 }
 
+// Close closes the transport. In-flight exchanges will be canceled and
+// subsequent exchanges will fail with ErrClosedTransport.
 func (u *DoHTransport) Close() error {
+	u.cancel(ErrClosedTransport)
 	if u.closer != nil {
 		return u.closer.Close()
 	}
@@ -76,6 +86,9 @@ func (u *DoHTransport) ExchangeContext(ctx context.Context, q []byte) (*dnsmsg.M
 	}
 	if l > dohMaximumMsgSize {
 		return nil, ErrPayloadOverFlow
+	}
+	if ctxIsDone(u.ctx) {
+		return nil, ErrClosedTransport
 	}
 	bp := copyMsg(q)
 	bs := bp
@@ -105,7 +118,7 @@ func (u *DoHTransport) ExchangeContext(ctx context.Context, q []byte) (*dnsmsg.M
 		// Because the http package may close the underlay connection
 		// if the context is done before the query is completed. This
 		// reduces the connection reuse efficiency.
-		ctx, cancel := context.WithTimeout(context.Background(), defaultDoHTimeout)
+		ctx, cancel := context.WithTimeout(u.ctx, defaultDoHTimeout)
 		defer cancel()
 		r, err := u.exchange(ctx, bytesToStringUnsafe(rawQuery))
 		if err != nil {
@@ -115,6 +128,8 @@ func (u *DoHTransport) ExchangeContext(ctx context.Context, q []byte) (*dnsmsg.M
 	}()
 
 	select {
+	case <-u.ctx.Done():
+		return nil, context.Cause(u.ctx)
 	case <-ctx.Done():
 		return nil, context.Cause(ctx)
 	case res := <-resChan:
